@@ -136,20 +136,53 @@ def build(j, g, cls=xgi.Hypergraph):
 # ---------------------------------------------------------------------------
 # execution of an abstract op
 # ---------------------------------------------------------------------------
+ALIAS = "__caller_owned__"  # what the caller puts into its own containers after the call
+_HANDED = []  # mutable containers handed to the library during the current call
+
+
 def _present(seq, rng):
-    """how a member collection is handed to the library (never reaches TLC)"""
+    """how a member collection is handed to the library (never reaches TLC).  A caller may reuse one
+    object for equal collections of one call, and goes on using (and changing) its own containers after
+    the call: nothing of that may show in the network."""
+    seq = list(seq)
     r = rng.random()
+    if r < 0.2:
+        for c in _HANDED:  # the same object again
+            try:
+                if (isinstance(c, list) and c == seq) or (isinstance(c, set) and len(c) == len(seq) and c == set(seq)):
+                    return c
+            except TypeError:
+                pass
+    out = None
     if r < 0.5:
-        return list(seq)
-    if r < 0.75:
+        out = list(seq)
+    elif r < 0.7:
         return tuple(seq)
-    try:
-        s = set(seq)
-        if len(s) == len(seq):
-            return s
-    except TypeError:
-        pass
-    return list(seq)
+    else:
+        try:
+            s = set(seq)
+            if len(s) == len(seq):
+                out = s
+        except TypeError:
+            pass
+    if out is None:
+        out = list(seq)
+    _HANDED.append(out)
+    return out
+
+
+def begin_call():
+    del _HANDED[:]
+
+
+def end_call():
+    """the caller changes the containers it handed over"""
+    for c in _HANDED:
+        if isinstance(c, set):
+            c.add(ALIAS)
+        elif isinstance(c, list):
+            c.append(ALIAS)
+    del _HANDED[:]
 
 
 def classify(ex):
@@ -178,6 +211,12 @@ def call(H, op, g, rng=None):
     def members(m):
         return _present([N(x) for x in m], rng)
 
+    def odd(d, last):
+        """attribute entries that are not dicts (op.b2: key/value pairs; op.b4: None for the last item)"""
+        if op["b4"] and last:
+            return None
+        return list(d.items()) if op["b2"] else d
+
     def ebunch(fmt, items):
         out = []
         for it in items:
@@ -187,13 +226,14 @@ def call(H, op, g, rng=None):
             elif fmt == 2:
                 out.append((m, E(it["id"])))
             elif fmt == 3:
-                out.append((m, A(it["a"], "e")))
+                out.append((m, odd(A(it["a"], "e"), it is items[-1])))
             elif fmt == 4:
-                out.append((m, E(it["id"]), A(it["a"], "e")))
+                out.append((m, E(it["id"]), odd(A(it["a"], "e"), it is items[-1])))
         if fmt == 5:
             return {E(it["id"]): members(it["m"]) for it in items}
         return out if rng.random() < 0.7 else iter(out)
 
+    begin_call()
     with warnings.catch_warnings(record=True) as wlist:
         warnings.simplefilter("always")
         try:
@@ -290,4 +330,5 @@ def call(H, op, g, rng=None):
             if isinstance(ex, (KeyboardInterrupt, SystemExit)):
                 raise
             res = classify(ex)
+    end_call()
     return res, len(wlist), newg
